@@ -198,11 +198,11 @@ def c01(tier, replay=None):
     allv = sorted(PALETTE)
     if tier == "quick":
         plans = [("cif2-single", 2, allv, ALLPRES, ALLSEPS, CTX2, ["eof", "eol"], 1),
-                 ("cif2-pairs", 2, ["word", "unk", "apos", "semi", "ml", "mlsemi", "bslend", "u4", "empty", "colonend", "num"], ALLPRES, ["sp", "eol", "cmt", "none"], ["scalars", "loop1", "list", "table"], ["eof"], 2),
+                 ("cif2-pairs", 2, ["word", "unk", "apos", "semi", "ml", "mlsemi", "bslend", "u4", "empty", "colonend", "num"], ALLPRES, ["sp", "eol", "cmt", "none"], ["scalars", "loop1", "list", "table", "looptable", "looplist"], ["eof"], 2),
                  ("cif1-single", 1, CIF1_VIDS, ["bare", "sq", "dq", "text"], ALLSEPS[:-1], CTX1, ["eof", "eol", "cmt"], 1)]
     else:
         plans = [("cif2-single", 2, allv, ALLPRES, ALLSEPS, CTX2, TAILS, 1),
-                 ("cif2-pairs", 2, ["word", "unk", "apos", "semi", "ml", "mlsemi", "bslend", "u4", "empty", "colonend", "num", "mlqq", "mlaa", "tq12", "nlend", "both"], ALLPRES, ["sp", "eol", "cmt", "none"], ["scalars", "loop1", "list", "table"], ["eof"], 2),
+                 ("cif2-pairs", 2, ["word", "unk", "apos", "semi", "ml", "mlsemi", "bslend", "u4", "empty", "colonend", "num", "mlqq", "mlaa", "tq12", "nlend", "both"], ALLPRES, ["sp", "eol", "cmt", "none"], ["scalars", "loop1", "list", "table", "looptable", "looplist"], ["eof"], 2),
                  ("cif2-triples", 2, ["word", "apos", "semi", "ml", "empty"], ["bare", "sq", "tdq", "text"], ["sp", "eol"], ["loop1", "list"], ["eof"], 3),
                  ("cif1-single", 1, CIF1_VIDS, ["bare", "sq", "dq", "text"], ALLSEPS[:-1], CTX1, TAILS, 1),
                  ("cif1-pairs", 1, [v for v in ("word", "unk", "apos", "semi", "ml", "mlsemi", "bslend", "empty", "num", "quot", "both", "data", "hash", "dollar", "obr", "under", "nlend", "lead", "trail", "mlq1") if v in CIF1_VIDS], ["bare", "sq", "dq", "text"], ["sp", "eol", "cmt"], CTX1, ["eof"], 2)]
@@ -719,6 +719,14 @@ def c03(tier, replay=None):
             inputs.append(("seed", b, o, "new", False))
         inputs.append(("seed16", t.encode("utf-16-le", "surrogatepass"), {"force": 1, "enc": "UTF-16LE"}, "new", False))
         inputs.append(("seed16bom", b"\xff\xfe" + t.encode("utf-16-le", "surrogatepass"), None, "none", False))
+    # bytes that have no character in a table-based encoding (unassigned slots), decoded under that encoding: every high
+    # byte once inside a value, a name, a comment and a text field, for a few encodings with holes and some without
+    for enc in ("ISO-8859-7", "ISO-8859-3", "windows-1252", "Shift_JIS", "TIS-620", "ISO-8859-1", "US-ASCII", "KOI8-R"):
+        for hb in ((0xFF, 0x81, 0xA5, 0xAE, 0xD2, 0xFD, 0x80, 0xA0) if tier == "quick" else range(0x80, 0x100)):
+            for where, doc in (("value", b"data_x\n_a 'bc'\n_d %s\n_e 1\n"), ("name", b"data_x\n_a%s 1\n_e 2\n"), ("comment", b"data_x # %s\n_e 2\n"), ("text", b"data_x\n_t\n;a%sb\n;\n_e 2\n")):
+                if tier == "quick" and where in ("comment", "text") and hb not in (0xFF, 0x81):
+                    continue
+                inputs.append(("hole-%s" % where, doc.replace(b"%s", bytes([hb])), {"enc": enc, "force": 1}, "new", False))
     t0 = time.time()
     first, second = contract_run(binary, inputs, tier)
     log('[C03] executions done in %.1fs' % (time.time() - t0))
